@@ -2623,6 +2623,7 @@ static void upipe_h265f_work_annexb(struct upipe *upipe, struct upump **upump_p)
 static bool upipe_h265f_work_nalu(struct upipe *upipe, struct uref *uref,
                                   struct upump **upump_p)
 {
+    struct upipe_h265f *upipe_h265f = upipe_h265f_from_upipe(upipe);
     uint64_t nal_units = 0;
     uint64_t nal_offset = 0;
     uint64_t nal_size = 0;
@@ -2650,6 +2651,13 @@ static bool upipe_h265f_work_nalu(struct upipe *upipe, struct uref *uref,
         if ((nal_type < H265NAL_TYPE_VPS || nal_type == H265NAL_TYPE_PREF_SEI)
                 && vcl_offset == -1)
             vcl_offset = nal_offset;
+    }
+
+    if (upipe_h265f->active_vps == -1 || upipe_h265f->active_sps == -1 ||
+        upipe_h265f->active_pps == -1) {
+        upipe_warn(upipe, "discarding data without VPS/SPS/PPS");
+        uref_free(uref);
+        return true;
     }
 
     UBASE_RETURN(uref_block_set_header_size(uref, vcl_offset))
@@ -2735,6 +2743,13 @@ static bool upipe_h265f_work_length(struct upipe *upipe, struct uref *uref,
         if (nal_offset)
             uref_h26x_set_nal_offset(uref, nal_offset, au_nal_units++);
         nal_offset += length_size + nal_size;
+    }
+
+    if (upipe_h265f->active_vps == -1 || upipe_h265f->active_sps == -1 ||
+        upipe_h265f->active_pps == -1) {
+        upipe_warn(upipe, "discarding data without VPS/SPS/PPS");
+        uref_free(uref);
+        return true;
     }
 
     UBASE_RETURN(uref_block_set_header_size(uref, vcl_offset))
